@@ -42,9 +42,31 @@ def with_budget(seconds, fn):
         signal.signal(signal.SIGALRM, old)
 
 
-def fake_link(name, cf_name):
-    h = hashlib.sha256(repr((name, cf_name)).encode()).digest()[0]
+QUOTE_LEN = 432
+
+
+def fake_link(name, cf_name, content=b""):
+    """deterministic stand-in for a signature check: depends on who signs whom and, for the SGX quote
+    and attestation-key elements, on the signed bytes (so that losing bytes on save shows)"""
+    h = hashlib.sha256(repr((name, cf_name, bytes(content))).encode()).digest()[0]
     return h % 4 != 0          # 75% of the links hold
+
+
+def signed_bytes_impl(el):
+    import admin.certificate_v2 as v2
+    if isinstance(el, (v2.HSMCertificateV2ElementSGXQuote, v2.HSMCertificateV2ElementSGXAttestationKey)):
+        return el._message
+    return b""
+
+
+def signed_bytes_doc(doc, e):
+    if doc.get("version") == 2 and e.get("type") in ("sgx_quote", "sgx_attestation_key") \
+            and isinstance(e.get("message"), str):
+        try:
+            return bytes.fromhex(e["message"])
+        except ValueError:
+            return b""
+    return b""
 
 
 def patch_links():
@@ -54,8 +76,12 @@ def patch_links():
 
     def mk():
         def is_valid(self, certifier):
+            # the real link check of a quote first parses the 432-byte quote structure and answers
+            # False when it cannot: a fake link may not be more permissive than that
+            if isinstance(self, v2.HSMCertificateV2ElementSGXQuote) and len(self._message) < QUOTE_LEN:
+                return False
             return fake_link(canon(self.name), ("elem", canon(certifier.name))
-                             if hasattr(certifier, "signed_by") else "root")
+                             if hasattr(certifier, "signed_by") else "root", signed_bytes_impl(self))
         return is_valid
     for kls in (v1.HSMCertificateElement, v2.HSMCertificateV2ElementSGXQuote,
                 v2.HSMCertificateV2ElementSGXAttestationKey, v2.HSMCertificateV2ElementX509):
@@ -121,7 +147,8 @@ def gen_doc(rng):
             ty = rng.choice(["sgx_quote", "sgx_attestation_key", "x509_pem", "x509_pem"])
             e = {"name": nm, "type": ty, "signed_by": sb}
             if ty == "sgx_quote":
-                e.update(message=bytes(rng.getrandbits(8) for _ in range(432)).hex(),
+                qlen = rng.choice([432, 432, 432, 100, 431, 433, 500])
+                e.update(message=bytes(rng.getrandbits(8) for _ in range(qlen)).hex(),
                          custom_data=good_hex(rng), signature=good_hex(rng))
             elif ty == "sgx_attestation_key":
                 ln = rng.choice([384, 384, 384, 384, 100, 400])
@@ -134,6 +161,16 @@ def gen_doc(rng):
                 e.update(message=rng.choice(["QUJD", "QUJDRA==", "QU JD", "QUJDRA"]))
         els.append(e)
     targets = [rng.choice(names) for _ in range(rng.randint(0, 3))]
+    if len(els) >= 2 and rng.random() < 0.1:
+        # a lasso: a target whose chain of certifiers runs into a cycle it is not itself part of
+        # (t -> a -> a, or t -> a -> b -> a)
+        k = rng.choice([1, 2]) if len(els) >= 3 else 1
+        loop = rng.sample(range(len(els)), k + 1)
+        t_i, cyc = loop[0], loop[1:]
+        for j, ci in enumerate(cyc):
+            els[ci]["signed_by"] = els[cyc[(j + 1) % len(cyc)]]["name"]
+        els[t_i]["signed_by"] = els[cyc[0]]["name"]
+        targets = [els[t_i]["name"]] + targets[:1]
     doc = {"version": 2 if v2 else 1, "targets": targets, "elements": els}
     for _ in range(rng.choice([0, 0, 0, 1, 1, 2])):
         m = rng.random()
@@ -190,10 +227,28 @@ def model_links(doc):
                 names.append(e["name"])
             except TypeError:
                 pass
+    short = set()          # names whose (last) element is a quote too short to parse
+    content = {}
+    for e in doc["elements"]:
+        if isinstance(e, dict) and "name" in e:
+            try:
+                hash(e["name"])
+            except TypeError:
+                continue
+            is_short = False
+            if doc.get("version") == 2 and e.get("type") == "sgx_quote" and isinstance(e.get("message"), str):
+                try:
+                    is_short = len(bytes.fromhex(e["message"])) < QUOTE_LEN
+                except ValueError:
+                    is_short = False
+            (short.add if is_short else short.discard)(canon(e["name"]))
+            content[canon(e["name"])] = signed_bytes_doc(doc, e)
     for n in names:
-        out[(n, certs.ROOT)] = fake_link(canon(n), "root")
+        ok = canon(n) not in short
+        cb = content.get(canon(n), b"")
+        out[(n, certs.ROOT)] = ok and fake_link(canon(n), "root", cb)
         for c in names:
-            out[(n, c)] = fake_link(canon(n), ("elem", canon(c)))
+            out[(n, c)] = ok and fake_link(canon(n), ("elem", canon(c)), cb)
     return out
 
 
@@ -229,6 +284,9 @@ def run(ctx):
             except Hang:
                 res["violations"].append({"key": "C16:hang", "what": "loading / validating did not "
                                           "terminate within 5 s", "doc": doc})
+                if len([v for v in res["violations"] if v["key"] == "C16:hang"]) >= 3:
+                    res["notes"].append("stopped after three non-terminating documents")
+                    break
                 continue
             if not obs["loaded"]:
                 dist["rejected"] += 1
